@@ -592,9 +592,15 @@ def run(ctx):
                 "the documented shape / not the exact match; distinct by input")
     ctx.trusted += ["scipy RegularGridInterpolator/interp1d are the model's hypotheses (multilinear, linear extrapolation / range error); exercised by every case",
                     "angles are exact fractions of a turn in the model and 2*pi*u in floats in the implementation; tolerance 1e-9 relative"]
+    from harness import translators as _tr
+    ctx.trusted += ["translator harness/translators/bcfacts.py (normalised source text of the grid / wrap / shape-test lines)"]
+    _tr.import_all()
+    ctx.gen("BCFacts", _tr.REGISTRY["BCFacts"])
     ctx.prove("C19", expect_theorems=["C19_grid_exact", "C19_periodic", "C19_vector_agrees_with_scalar"])
+    ctx.prove("C19_source")
     if ctx.tier == "thorough":
         ctx.coqchk("C19")
+        ctx.coqchk("C19_source")
     cases = generate(ctx)
     res, terms, term_case, findings = evaluate(ctx, cases)
     for c in cases[:3]:
